@@ -25,7 +25,7 @@ theorem popCount_pos_of_covers (X off : Nat) (c : Cfg) (l : List ι) (hc : Cover
 omit [DecidableEq ι] in
 theorem popCount_pos_of_viewOK {X : Nat} {s : SInfo ι} {f : Filter} {i : VInfo ι} (hok : ViewOK P hf X s f i) (hw : FWF f)
     (hM : i.M ≠ []) : 0 < popCount X (f.off P) f.capBits :=
-  popCount_pos_of_covers hf X (f.off P) f.cfg i.M hok.cov hok.hs hM (hok.k1 (promised_of_M_ne P hf hok hM)) hw.capPos
+  popCount_pos_of_covers hf X (f.off P) f.cfg i.M hok.cov hok.hs hM (hok.k1 (promised_of_M_ne P hf hok hM)).1 hw.capPos
 
 omit [DecidableEq ι] in
 /-- `get_bits_used` on the view itself -/
